@@ -178,7 +178,10 @@ def build(case: dict):
         earlier[level, w, h] = px
         how = rng.randrange(4)
         if mode == 'fill':
-            frame.fill(*px[:4])
+            if tuple(px[:3]) == (0, 0, 0) and how % 2:
+                frame.fill(a=px[3])   # the documented defaults for the colour, alpha by keyword
+            else:
+                frame.fill(*px[:4])
         elif mode == 'setitem' and w * h <= 256:
             frame.fill(9, 9, 9, 9)
             order = list(range(w * h))
@@ -925,4 +928,4 @@ def replay(run, data) -> None:
 
 
 # (kept at the end of the file so that the text above stays the description the check was first built to)
-RULE += ' ' + 'Later additions: refused copy_from() (wrong length, other size) and a frame copied onto itself on lazily loaded frames; a few large textures (256x1 .. 1x4096, 128x128, 256x64: eight and more mipmap levels). Every saved file is also read with header_only=True: header fields, resources and sheet equal those of the full read.'
+RULE += ' ' + 'Later additions: refused copy_from() (wrong length, other size) and a frame copied onto itself on lazily loaded frames; a few large textures (256x1 .. 1x4096, 128x128, 256x64: eight and more mipmap levels). Every saved file is also read with header_only=True: header fields, resources and sheet equal those of the full read. Frames filled with fill() use the usual fill colours (black, white, one channel) with every kind of alpha, positionally and through the defaults.'
